@@ -16,7 +16,7 @@ use serde_json::{json, Value};
 pub static DEF: PropDef = PropDef {
     id: "C17",
     level: "exploration",
-    total: |t| t.pick(64, 3200),
+    total: |t| t.pick(384, 11200),
     run,
     rule: "a real TCB pair is driven to a random point (handshake in progress, established with data queued/in flight, either side closing, all states reachable through the API), then 1..40 crafted segments are handed to the victim, interleaved with legitimate traffic: all 64 flag combinations x seq in {rcv.nxt-2..+2, right edge -2..+2, +-2^31, random} x ack in {snd.una-1.., snd.nxt+1, random} x wnd in {0,1,queued-1,65535,shrinking} x len in {0,1,MSS}. Oracles: no panic from any call; new data emitted by the victim stays within SND.UNA+SND.WND of the snapshot before segments() and within the furthest right edge any delivered segment advertised; a segment that RFC 9293 table 6 makes unacceptable (by the harness's arithmetic), or one without SYN/RST in SYN-SENT, changes neither the victim's state nor the bytes delivered - immediately, and in mode U (only unacceptable injections) also not later: the legitimate stream must still converge intact. LISTEN/CLOSED handlers get the same segments (no panic). Non-trivial = distinct (victim state, flag set, seq class, ack class, wnd class, len class) tuple.",
     assumptions: &[
